@@ -5,6 +5,8 @@
 //	R2  every call net.ListenUDP(...)                  -> simhook.ListenUDP(...)
 //	R3  every `range` over a map-typed expression      -> seed-ordered iteration
 //	R6  queue-capacity constants used as call args     -> simhook.Knob("NAME", NAME)
+//	R7  `select` over receive cases only (no default)  -> the simulator chooses which READY
+//	    case runs when several are ready (the others' channels are nil for that round)
 //
 // All edits are same-line text splices, so line numbers in panics and race reports are
 // those of the real source. Targets are found by syntax and type, never by line number.
@@ -67,7 +69,7 @@ type edit struct {
 	text       string
 }
 
-type counts struct{ R1, R2, R3, R6 int }
+type counts struct{ R1, R2, R3, R6, R7 int }
 
 func die(f string, a ...any) {
 	fmt.Fprintf(os.Stderr, "seamgen: "+f+"\n", a...)
@@ -168,6 +170,7 @@ func main() {
 			total.R2 += c.R2
 			total.R3 += c.R3
 			total.R6 += c.R6
+			total.R7 += c.R7
 			sites = append(sites, ss...)
 			if len(edits) == 0 {
 				continue
@@ -242,11 +245,11 @@ func main() {
 	}
 	sort.Strings(sites)
 	rb, _ := json.MarshalIndent(map[string]any{
-		"R1": total.R1, "R2": total.R2, "R3": total.R3, "R6": total.R6, "map_range_sites": sites,
+		"R1": total.R1, "R2": total.R2, "R3": total.R3, "R6": total.R6, "R7": total.R7, "map_range_and_select_sites": sites,
 	}, "", " ")
 	_ = os.WriteFile(filepath.Join(*out, "seamgen.json"), rb, 0o644)
 	if !*quiet {
-		fmt.Printf("seamgen: R1=%d R2=%d R3=%d R6=%d files=%d\n", total.R1, total.R2, total.R3, total.R6, len(overlay))
+		fmt.Printf("seamgen: R1=%d R2=%d R3=%d R6=%d R7=%d files=%d\n", total.R1, total.R2, total.R3, total.R6, total.R7, len(overlay))
 	}
 }
 
@@ -373,6 +376,63 @@ func rewriteFile(fset *token.FileSet, f *ast.File, src []byte, info *types.Info,
 					c.R6++
 				}
 			}
+		case *ast.SelectStmt:
+			// all clauses must be receives from side-effect-free channel expressions
+			var chans []ast.Expr
+			okSel := len(x.Body.List) >= 2
+			for _, cl := range x.Body.List {
+				cc := cl.(*ast.CommClause)
+				var recv ast.Expr
+				switch c := cc.Comm.(type) {
+				case *ast.ExprStmt:
+					recv = c.X
+				case *ast.AssignStmt:
+					if len(c.Rhs) == 1 {
+						recv = c.Rhs[0]
+					}
+				}
+				u, isU := recv.(*ast.UnaryExpr)
+				if !isU || u.Op != token.ARROW || !pure(u.X) {
+					okSel = false
+					break
+				}
+				chans = append(chans, u.X)
+			}
+			if !okSel {
+				return true
+			}
+			fn := funcOf(x.Pos())
+			ordinal["sel:"+fn]++
+			siteName := fmt.Sprintf("%s:%s#select%d", rel, fn, ordinal["sel:"+fn])
+			h := fnv.New32a()
+			h.Write([]byte(siteName))
+			site := int(h.Sum32() & 0x7fffffff)
+			sites = append(sites, fmt.Sprintf("%s=%d", siteName, site))
+			n++
+			base := fmt.Sprintf("vsel%d_%d", fset.Position(x.Pos()).Line, n)
+			var names, srcs, lens []string
+			for i, c := range chans {
+				nm := fmt.Sprintf("%s_%d", base, i)
+				names = append(names, nm)
+				srcs = append(srcs, text(c))
+				lens = append(lens, "len("+nm+")")
+				edits = append(edits, edit{off(c.Pos()), off(c.End()), nm})
+			}
+			var b strings.Builder
+			fmt.Fprintf(&b, "%s := %s; switch simhook.Choose(%d, %s) { ", strings.Join(names, ", "), strings.Join(srcs, ", "), site, strings.Join(lens, ", "))
+			for i := range names {
+				var others, nils []string
+				for j, nm := range names {
+					if j != i {
+						others = append(others, nm)
+						nils = append(nils, "nil")
+					}
+				}
+				fmt.Fprintf(&b, "case %d: %s = %s; ", i, strings.Join(others, ", "), strings.Join(nils, ", "))
+			}
+			b.WriteString("}; ")
+			edits = append(edits, edit{off(x.Select), off(x.Select), b.String()})
+			c.R7++
 		case *ast.RangeStmt:
 			tv, ok := info.Types[x.X]
 			if !ok {
